@@ -27,9 +27,13 @@ def Topo (F : Flow S) (ρ : Rank F.n) : Prop :=
 
 def SelfFuture (F : Flow S) : Prop := ∀ i s t T, T ∈ F.selfReq i s t → t < T
 
-/-- a node reads nothing but its producers and itself -/
+/-- everything a node may read (actively or passively) sits at an earlier position as well -/
+def TopoR (F : Flow S) (ρ : Rank F.n) : Prop :=
+  ∀ c, c < F.n → ∀ p ∈ F.reads c, p < F.n ∧ ρ.posOf p < ρ.posOf c
+
+/-- a node reads nothing but the outputs listed in `reads` (active and passive inputs) and itself -/
 def Frame (F : Flow S) : Prop :=
-  ∀ i σ σ' t, (∀ j, (j = i ∨ j ∈ F.prods i) → σ j = σ' j) → F.f i σ t = F.f i σ' t
+  ∀ i σ σ' t, (∀ j, (j = i ∨ j ∈ F.reads i) → σ j = σ' j) → F.f i σ t = F.f i σ' t
 
 theorem mem_consumers (F : Flow S) (i c : Nat) : c ∈ consumers F i ↔ (c < F.n ∧ i ∈ F.prods c) := by
   simp [consumers]
@@ -166,7 +170,7 @@ theorem topo_not_self (F : Flow S) (ρ : Rank F.n) (hT : Topo F ρ) (i : Nat) (h
   intro h; have := (hT i hi i h).2; omega
 
 /-- at most one solution (along any topological rank) -/
-theorem sol_unique (F : Flow S) (ρ : Rank F.n) (hT : Topo F ρ) (hF : Frame F) (t : Time) (σ0 : Nat → S) (due : Nat → Bool)
+theorem sol_unique (F : Flow S) (ρ : Rank F.n) (hT : Topo F ρ) (hR : TopoR F ρ) (hF : Frame F) (t : Time) (σ0 : Nat → S) (due : Nat → Bool)
     (σ1 σ1' : Nat → S) (w w' : List Nat) (h : Sol F t σ0 due σ1 w) (h' : Sol F t σ0 due σ1' w') :
     ∀ i, i < F.n → (σ1 i = σ1' i ∧ (i ∈ w ↔ i ∈ w')) := by
   intro i hi
@@ -198,8 +202,9 @@ theorem sol_unique (F : Flow S) (ρ : Rank F.n) (hT : Topo F ρ) (hF : Frame F) 
       unfold upd
       rcases hj with rfl | hj
       · simp
-      · have hne : j ≠ i := fun e => topo_not_self F ρ hT i hi (e ▸ hj)
-        simp [hne]; exact (hprod j hj).1
+      · have hjr := hR i hi j hj
+        have hne : j ≠ i := fun e => by rw [e] at hjr; omega
+        simp [hne]; exact (ih j hjr.1 (by omega)).1
     by_cases hf : fires F due w i
     · refine ⟨by rw [h.st_fire i hi hf, h'.st_fire i hi (hfire.mp hf), heval], ?_⟩
       rw [h.wr i hi, h'.wr i hi, heval]
@@ -217,7 +222,7 @@ structure DInv (F : Flow S) (ρ : Rank F.n) (t : Time) (σ0 : Nat → S) (due : 
   st_idle : ∀ i, i < F.n → ρ.posOf i < k → ¬ fires F due w i → σ i = σ0 i
   wr : ∀ i, i < F.n → ρ.posOf i < k → (i ∈ w ↔ (fires F due w i ∧ (evalAt F t σ0 σ i).2 = true))
 
-theorem denSeq_inv (F : Flow S) (ρ : Rank F.n) (hT : Topo F ρ) (hF : Frame F) (t : Time) (σ0 : Nat → S) (due : Nat → Bool)
+theorem denSeq_inv (F : Flow S) (ρ : Rank F.n) (hT : Topo F ρ) (hR : TopoR F ρ) (hF : Frame F) (t : Time) (σ0 : Nat → S) (due : Nat → Bool)
     (fuel k : Nat) (σ : Nat → S) (w ev : List Nat) (hfk : k + fuel = F.n) (h : DInv F ρ t σ0 due k σ w) :
     DInv F ρ t σ0 due F.n (denSeq F ρ t due fuel k σ w ev).1 (denSeq F ρ t due fuel k σ w ev).2.1 := by
   induction fuel generalizing k σ w ev with
@@ -235,6 +240,9 @@ theorem denSeq_inv (F : Flow S) (ρ : Rank F.n) (hT : Topo F ρ) (hF : Frame F) 
       intro j hj hjk
       refine ⟨fun e => by rw [← e, hpos] at hjk; omega, fun hm => ?_⟩
       have := (hT j hj _ hm).2; omega
+    have hearlierR : ∀ j, j < F.n → ρ.posOf j < k → ρ.node k ∉ F.reads j := by
+      intro j hj hjk hm
+      have := (hR j hj _ hm).2; omega
     rw [denSeq]
     simp only
     by_cases hfire : (due (ρ.node k) || (F.prods (ρ.node k)).any (fun p => w.contains p)) = true
@@ -277,7 +285,7 @@ theorem denSeq_inv (F : Flow S) (ρ : Rank F.n) (hT : Topo F ρ) (hF : Frame F) 
         have hne : x ≠ ρ.node k := by
           rcases hx with rfl | hx
           · exact fun e => (hearlier x hj hjk).1 e.symm
-          · exact fun e => (hearlier j hj hjk).2 (e ▸ hx)
+          · exact fun e => hearlierR j hj hjk (e ▸ hx)
         unfold upd
         by_cases hxj : x = j <;> simp [hxj, hne]
       refine ⟨?_, ?_, ?_, ?_, ?_⟩
@@ -348,11 +356,11 @@ theorem denSeq_inv (F : Flow S) (ρ : Rank F.n) (hT : Topo F ρ) (hF : Frame F) 
           exact ⟨fun hm => absurd hm hnotw, fun ⟨a, _⟩ => absurd a hnf⟩
 
 /-- the slot-free reading solves the local equations -/
-theorem denSeq_sol (F : Flow S) (ρ : Rank F.n) (hT : Topo F ρ) (hF : Frame F) (t : Time) (σ0 : Nat → S) (due : Nat → Bool) :
+theorem denSeq_sol (F : Flow S) (ρ : Rank F.n) (hT : Topo F ρ) (hR : TopoR F ρ) (hF : Frame F) (t : Time) (σ0 : Nat → S) (due : Nat → Bool) :
     Sol F t σ0 due (denSeq F ρ t due F.n 0 σ0 [] []).1 (denSeq F ρ t due F.n 0 σ0 [] []).2.1 := by
   have h0 : DInv F ρ t σ0 due 0 σ0 [] :=
     ⟨fun _ _ _ => rfl, by simp, fun _ _ h => by omega, fun _ _ h => by omega, fun _ _ h => by omega⟩
-  have h := denSeq_inv F ρ hT hF t σ0 due F.n 0 σ0 [] [] (by omega) h0
+  have h := denSeq_inv F ρ hT hR hF t σ0 due F.n 0 σ0 [] [] (by omega) h0
   exact ⟨fun i hi => h.st_fire i hi (ρ.right i hi).2, fun i hi => h.st_idle i hi (ρ.right i hi).2,
          fun i hi => h.wr i hi (ρ.right i hi).2⟩
 
@@ -383,7 +391,8 @@ theorem cycle_eq_denSeq (F : Flow S) (ρ : Rank F.n) (hT : Topo F ρ) (hS : Self
     (two admissible statement orders), with the same nodes due at `t`.  After the cycle every node
     holds the same state under both ranks, and the same nodes wrote.  (Node functions are arbitrary;
     they only have to read nothing but their producers and themselves — `Frame`.) -/
-theorem cycle_rank_independent (F : Flow S) (ρ₁ ρ₂ : Rank F.n) (hT₁ : Topo F ρ₁) (hT₂ : Topo F ρ₂) (hS : SelfFuture F)
+theorem cycle_rank_independent (F : Flow S) (ρ₁ ρ₂ : Rank F.n) (hT₁ : Topo F ρ₁) (hT₂ : Topo F ρ₂)
+    (hR₁ : TopoR F ρ₁) (hR₂ : TopoR F ρ₂) (hS : SelfFuture F)
     (hF : Frame F) (fx : Bool) (t : Time) (g₁ g₂ : G) (σ0 : Nat → S)
     (hlen₁ : g₁.slots.length = F.n) (hlen₂ : g₂.slots.length = F.n) (hc₁ : g₁.cursor = 0) (hc₂ : g₂.cursor = 0)
     (hdue : dueOf ρ₁ g₁ t = dueOf ρ₂ g₂ t) :
@@ -391,20 +400,20 @@ theorem cycle_rank_independent (F : Flow S) (ρ₁ ρ₂ : Rank F.n) (hT₁ : To
       (cycle fx (beh F ρ₁) F.n t g₁ σ0).st i = (cycle fx (beh F ρ₂) F.n t g₂ σ0).st i := by
   intro i hi
   rw [(cycle_eq_denSeq F ρ₁ hT₁ hS fx t g₁ σ0 hlen₁ hc₁).1, (cycle_eq_denSeq F ρ₂ hT₂ hS fx t g₂ σ0 hlen₂ hc₂).1]
-  have s1 := denSeq_sol F ρ₁ hT₁ hF t σ0 (dueOf ρ₁ g₁ t)
-  have s2 := denSeq_sol F ρ₂ hT₂ hF t σ0 (dueOf ρ₂ g₂ t)
+  have s1 := denSeq_sol F ρ₁ hT₁ hR₁ hF t σ0 (dueOf ρ₁ g₁ t)
+  have s2 := denSeq_sol F ρ₂ hT₂ hR₂ hF t σ0 (dueOf ρ₂ g₂ t)
   rw [← hdue] at s2 ⊢
-  exact (sol_unique F ρ₁ hT₁ hF t σ0 (dueOf ρ₁ g₁ t) _ _ _ _ s1 s2 i hi).1
+  exact (sol_unique F ρ₁ hT₁ hR₁ hF t σ0 (dueOf ρ₁ g₁ t) _ _ _ _ s1 s2 i hi).1
 
 /-- … and a node's user code runs in the cycle under one rank iff it runs under the other -/
 theorem fired_rank_independent (F : Flow S) (ρ₁ ρ₂ : Rank F.n) (hT₁ : Topo F ρ₁) (hT₂ : Topo F ρ₂)
-    (hF : Frame F) (t : Time) (due : Nat → Bool) (σ0 : Nat → S) :
+    (hR₁ : TopoR F ρ₁) (hR₂ : TopoR F ρ₂) (hF : Frame F) (t : Time) (due : Nat → Bool) (σ0 : Nat → S) :
     ∀ i, i < F.n →
       (fires F due (denSeq F ρ₁ t due F.n 0 σ0 [] []).2.1 i ↔ fires F due (denSeq F ρ₂ t due F.n 0 σ0 [] []).2.1 i) := by
   intro i hi
-  have s1 := denSeq_sol F ρ₁ hT₁ hF t σ0 due
-  have s2 := denSeq_sol F ρ₂ hT₂ hF t σ0 due
-  have hu := sol_unique F ρ₁ hT₁ hF t σ0 due _ _ _ _ s1 s2
+  have s1 := denSeq_sol F ρ₁ hT₁ hR₁ hF t σ0 due
+  have s2 := denSeq_sol F ρ₂ hT₂ hR₂ hF t σ0 due
+  have hu := sol_unique F ρ₁ hT₁ hR₁ hF t σ0 due _ _ _ _ s1 s2
   unfold fires
   constructor
   · rintro (h | ⟨p, hp, hw⟩)
@@ -429,14 +438,15 @@ theorem denSeq_outside (F : Flow S) (ρ : Rank F.n) (t : Time) (due : Nat → Bo
     · exact ih (k + 1) _ _ _ (by omega)
 
 /-- the states after the cycle are equal as functions -/
-theorem cycle_rank_independent_fun (F : Flow S) (ρ₁ ρ₂ : Rank F.n) (hT₁ : Topo F ρ₁) (hT₂ : Topo F ρ₂) (hS : SelfFuture F)
+theorem cycle_rank_independent_fun (F : Flow S) (ρ₁ ρ₂ : Rank F.n) (hT₁ : Topo F ρ₁) (hT₂ : Topo F ρ₂)
+    (hR₁ : TopoR F ρ₁) (hR₂ : TopoR F ρ₂) (hS : SelfFuture F)
     (hF : Frame F) (fx : Bool) (t : Time) (g₁ g₂ : G) (σ0 : Nat → S)
     (hlen₁ : g₁.slots.length = F.n) (hlen₂ : g₂.slots.length = F.n) (hc₁ : g₁.cursor = 0) (hc₂ : g₂.cursor = 0)
     (hdue : dueOf ρ₁ g₁ t = dueOf ρ₂ g₂ t) :
     (cycle fx (beh F ρ₁) F.n t g₁ σ0).st = (cycle fx (beh F ρ₂) F.n t g₂ σ0).st := by
   funext i
   by_cases hi : i < F.n
-  · exact cycle_rank_independent F ρ₁ ρ₂ hT₁ hT₂ hS hF fx t g₁ g₂ σ0 hlen₁ hlen₂ hc₁ hc₂ hdue i hi
+  · exact cycle_rank_independent F ρ₁ ρ₂ hT₁ hT₂ hR₁ hR₂ hS hF fx t g₁ g₂ σ0 hlen₁ hlen₂ hc₁ hc₂ hdue i hi
   · rw [(cycle_eq_denSeq F ρ₁ hT₁ hS fx t g₁ σ0 hlen₁ hc₁).1, (cycle_eq_denSeq F ρ₂ hT₂ hS fx t g₂ σ0 hlen₂ hc₂).1,
       denSeq_outside F ρ₁ t _ F.n 0 σ0 [] [] (by omega) i (by omega),
       denSeq_outside F ρ₂ t _ F.n 0 σ0 [] [] (by omega) i (by omega)]
@@ -490,6 +500,7 @@ theorem denSeq_keeps (F : Flow S) (ρ : Rank F.n) (t : Time) (due : Nat → Bool
 def exF : Flow Nat :=
   { n := 4,
     prods := fun i => if i = 1 ∨ i = 2 then [0] else if i = 3 then [1, 2] else [],
+    reads := fun i => if i = 1 ∨ i = 2 then [0] else if i = 3 then [1, 2] else [],
     f := fun i σ _ => if i = 0 then (σ 0 + 1, true) else if i = 3 then (σ 1 + σ 2, true) else (σ 0 * (i + 1), true),
     selfReq := fun _ _ _ => [] }
 
